@@ -11,7 +11,9 @@ DeepBases = {"S"}
 MaxDepth = 6
 DeepAll = FALSE
 NameMenu = {"A", "ID", "Ab", "URL", "Abc", "AbC", "DNSX", "AbCd", "ABcd"}
-TwoVariant = {"E0", "[0]uint8", "[1]uint8", "bool", "int", "uint8", "string", "[2]float32", "[2]int", "time", "MyInt", "Simp", "PSimp", "Gen", "JM", "PJM", "TM"}
+TwoVariant = {"nzfloat", "nzfloat32", "E0", "[0]uint8", "[1]uint8", "bool", "int", "uint8", "string", "[2]float32", "[2]int", "time", "MyInt", "Simp", "PSimp", "Gen", "JM", "PJM", "TM"}
 NbrDistinct = TRUE
+Hot2Kinds = {"bool", "int", "float", "string", "nzfloat", "nzfloat32"}
+Hot2Tags = {"", "oe", "stroe", "nmstroe", "nmoestr", "xstroe"}
 CONSTRAINT Emit
 CHECK_DEADLOCK FALSE
